@@ -363,42 +363,61 @@ class Ctx:
             s.set("timeout", self.timeout_ms)
             s.pop()
 
+    def refute_by_instances(self, goal):
+        """With quantified facts, satisfiable queries rarely terminate: look for a genuine
+        counterexample among small instances (all sequences of length <= K and every quantified
+        fact instantiated at all indices 0..K-1)."""
+        s = self.solver
+        for bound in (2, 4):
+            s.push()
+            try:
+                s.add(z3.Not(goal))
+                for ln in self.seq_lens:
+                    s.add(ln <= bound)
+                for q in self.qfacts:
+                    for inst in instantiate(q, bound):
+                        s.add(inst)
+                s.set("timeout", 5000)
+                r = s.check()
+                if r == z3.sat:
+                    return "refuted", self.engine.extract_model(self, s.model()), f"z3 (instances, len<={bound})"
+            finally:
+                s.set("timeout", self.timeout_ms)
+                s.pop()
+        return None
+
     def discharge(self, goal):
         """valid / refuted(model) / unknown for `path condition => goal`."""
         s = self.solver
         quick = 1500 if self.qfacts else self.timeout_ms
-        s.push()
-        try:
-            for q in self.qfacts:
-                s.add(q)
-            s.add(z3.Not(goal))
-            s.set("timeout", quick)
-            r = s.check()
-            if r == z3.unsat:
-                return "valid", None, "z3"
-            if r == z3.sat:
-                return "refuted", self.engine.extract_model(self, s.model()), "z3"
-        finally:
-            s.set("timeout", self.timeout_ms)
-            s.pop()
-        # unknown.  With quantified facts, satisfiable queries rarely terminate: look for a
-        # genuine counterexample among small instances (all sequences of length <= K and every
-        # quantified fact instantiated at all indices 0..K-1; such a model satisfies the facts).
+        # quantified queries are unstable (the same query may take 0.1 s or > 20 s depending on
+        # the solver's internal choices): several short attempts with different seeds first
+        attempts = [(quick, self.engine.seed)] + ([(2500, self.engine.seed + 17), (2500, self.engine.seed + 101)]
+                                                   if self.qfacts else [])
+        for tmo, seed in attempts:
+            s.push()
+            try:
+                for q in self.qfacts:
+                    s.add(q)
+                s.add(z3.Not(goal))
+                s.set("timeout", tmo)
+                s.set("random_seed", seed)
+                r = s.check()
+                if r == z3.unsat:
+                    return "valid", None, "z3"
+                if r == z3.sat:
+                    return "refuted", self.engine.extract_model(self, s.model()), "z3"
+            finally:
+                s.set("timeout", self.timeout_ms)
+                s.set("random_seed", self.engine.seed)
+                s.pop()
+            if tmo == quick and self.qfacts:
+                # look for a counterexample among small instances before retrying the proof
+                res = self.refute_by_instances(goal)
+                if res is not None:
+                    return res
         if self.qfacts:
-            for bound in (2, 4):
-                s.push()
-                try:
-                    s.add(z3.Not(goal))
-                    for ln in self.seq_lens:
-                        s.add(ln <= bound)
-                    for q in self.qfacts:
-                        for inst in instantiate(q, bound):
-                            s.add(inst)
-                    r = s.check()
-                    if r == z3.sat:
-                        return "refuted", self.engine.extract_model(self, s.model()), f"z3 (instances, len<={bound})"
-                finally:
-                    s.pop()
+            pass
         s.push()
         try:
             for q in self.qfacts:
